@@ -100,7 +100,7 @@ Definition den_str (s : source) : den :=
   match s with
   | SText t _ => DVal (PStr (nonempty t))
   | SValue (VS t) => DVal (PStr (nonempty t))
-  | SValue (VC z) => DVal (PStr (Some (if z =? 0 then [] else [Z.to_N (z mod 256)])))
+  | SValue (VC z) => DVal (PStr (Some (if z mod 256 =? 0 then [] else [Z.to_N (z mod 256)])))
   | _ => DRefuse
   end.
 
